@@ -797,10 +797,18 @@ class _StringLiteral(str):
     def __call__(self, ${ctx}_text, _pos):
         return self._parse_function(${ctx}_text, _pos)
 
+    def __reduce__(self):
+        # A result may hold the argument: it is saved as the plain value.
+        return (str, (str(self),))
+
 
 class _BytesLiteral(bytes):
     def __call__(self, ${ctx}_text, _pos):
         return self._parse_function(${ctx}_text, _pos)
+
+    def __reduce__(self):
+        # A result may hold the argument: it is saved as the plain value.
+        return (bytes, (bytes(self),))
 
 
 def _wrap_string_literal(string_value, parse_function):
@@ -816,6 +824,10 @@ def _wrap_string_literal(string_value, parse_function):
 class _ByteLiteral(int):
     def __call__(self, ${ctx}_text, _pos):
         return self._parse_function(${ctx}_text, _pos)
+
+    def __reduce__(self):
+        # A result may hold the argument: it is saved as the plain value.
+        return (int, (int(self),))
 
 
 def _wrap_byte_literal(byte_value, parse_function):
